@@ -306,7 +306,12 @@ class Summarizer:
         while isinstance(cur, ast.Subscript):
             keys.insert(0, subst(cur.slice, p.env))
             cur = cur.value
-        base = ast.unparse(subst(cur, p.env)) if attr_key(cur) is None else attr_key(cur)
+        if attr_key(cur) is not None:
+            base = attr_key(cur)
+        elif isinstance(cur, ast.Name) and cur.id in p.env and not isinstance(p.env[cur.id], (ast.Name, ast.Attribute, ast.Subscript)):
+            base = cur.id           # a local container built here (dict/list literal, call result): not an alias
+        else:
+            base = ast.unparse(subst(cur, p.env))
         return base, keys
 
     def _for(self, st: ast.For, p: Path, ci, dyn, depth, fn, mod):
